@@ -41,7 +41,10 @@ func NewIOReader(reader io.Reader) ro.Observable[[]byte] {
 				}
 				break
 			}
-			destination.NextWithContext(ctx, buf[:n])
+			// buf is reused by the next Read: observers must receive their own copy
+			chunk := make([]byte, n)
+			copy(chunk, buf[:n])
+			destination.NextWithContext(ctx, chunk)
 		}
 
 		return func() {
